@@ -84,8 +84,22 @@ Theorem C20_invalid_request_ignored : forall cats s c n cat,
   cats c = Some cat -> supported cat (n_metric n) = false -> step cats s (AddMetric c n) = Some (s, []).
 Proof. exact add_unsupported_noop. Qed.
 
-Theorem C20_handler_never_crashes : forall cats es s c, run cats init es = Some s -> st_hand s c <> Some HCrashed.
+(* unless the API client itself raises (HandlerFail), no handler is ever in the crashed state *)
+Theorem C20_handler_never_crashes : forall cats es s c, run cats init es = Some s ->
+  existsb is_fault es = false -> st_hand s c <> Some HCrashed.
 Proof. exact never_crashed. Qed.
+
+(* What must persist across faults: a failing API client call during a handler (re)start, a failing
+   `components()` inside add_metric (the request is dropped) and a restart of the actor's `_run()` change
+   neither subscriptions, receivers/buffers, in-flight tasks nor anything sent; the last two change
+   nothing at all.  All theorems above therefore hold for event sequences containing them. *)
+Theorem C20_faults_and_restart_keep_state : forall cats s e s' o,
+  (match e with HandlerFail _ | AddFault _ _ | Restart => True | _ => False end) ->
+  step cats s e = Some (s', o) ->
+  o = [] /\ st_subs s' = st_subs s /\ st_recv s' = st_recv s /\ st_fly s' = st_fly s /\ st_out s' = st_out s /\
+  st_taken s' = st_taken s /\ st_acc s' = st_acc s /\
+  (match e with HandlerFail _ => True | _ => s' = s end).
+Proof. exact fault_frame. Qed.
 
 Theorem C20_handler_start_runs : forall cats es s c s' o, run cats init es = Some s ->
   step cats s (HandlerStart c) = Some (s', o) -> st_hand s' c = Some (HRunning (st_subs s c)).
@@ -103,7 +117,7 @@ Example C20_nonvacuous :
   let a := mkN 0 0 in let b := mkN 14 0 in
   let m k := mkMsg (k * 1000000) (map (fun i => 100 * k + Z.of_nat i) (seq 0 28)) in
   match run cats init [AddMetric 4 a; HandlerStart 4; ApiMsg 4 (m 1); ApiMsg 4 (m 2); Take 4;
-                       AddMetric 4 b; AddMetric 4 a; AddMetric 7 a; AddMetric 4 (mkN 15 0); HandlerStart 4; Take 4; ApiMsg 4 (m 3);
+                       AddMetric 4 b; AddMetric 4 a; AddMetric 7 a; AddMetric 4 (mkN 15 0); AddFault 9 a; Restart; HandlerFail 4; HandlerStart 4; Take 4; ApiMsg 4 (m 3);
                        Deliver; Take 4; Deliver; Deliver] with
   | Some s => chan_out 4 a (st_out s) = [(1000000, 100); (2000000, 200); (3000000, 300)] /\
               chan_out 4 b (st_out s) = [(2000000, 214); (3000000, 314)] /\
@@ -123,5 +137,6 @@ Print Assumptions C20_repeat_no_effect.
 Print Assumptions C20_unknown.
 Print Assumptions C20_invalid_request_ignored.
 Print Assumptions C20_handler_never_crashes.
+Print Assumptions C20_faults_and_restart_keep_state.
 Print Assumptions C20_handler_start_runs.
 Print Assumptions C20_checked_traces_are_runs.
